@@ -57,7 +57,54 @@ def run(repo, rep, tier):
     # written in (C20 owns the text template's render)
     from . import c20 as _c20
     L.borrow(repo, rep, "R17.1", "C20", _c20._bytes, ("encode",))
+    _results(repo, rep)
     L.state_rule(repo, rep)
+
+
+def _results(repo, rep):
+    """every exit of read_bytes hands back (the decoded document, the name of
+    the codec it was decoded with, the content type): the first item is a
+    decode of the input (less the byte order mark) with that codec, the
+    second the codec's name"""
+    f = repo.func("chameleon.utils.read_bytes")
+    prm = f.node.args.args[0].arg
+    rets = [r_ for r_ in ast.walk(f.node) if isinstance(r_, ast.Return)]
+    bad = []
+    for r_ in rets:
+        v = r_.value
+        if not (isinstance(v, ast.Tuple) and len(v.elts) == 3):
+            bad.append(src(r_)[:60])
+            continue
+        doc = L.inline_locals(f.node, v.elts[0])
+        enc = src(v.elts[1])
+        okd = isinstance(doc, ast.Call) and isinstance(
+            doc.func, ast.Attribute) and doc.func.attr == "decode" and \
+            len(doc.args) == 1 and src(doc.args[0]) == enc and (
+                src(doc.func.value) == prm or (
+                    isinstance(doc.func.value, ast.Subscript) and
+                    src(doc.func.value.value) == prm))
+        if not okd or enc != "encoding":
+            bad.append("%s, %s" % (src(doc)[:40], enc))
+    rep.check(len(rets) >= 4 and not bad, "R17.1", f.qualname, "every exit "
+              "returns the input decoded with the codec it names (%d exits)"
+              % len(rets), construct="result-decoded-with-named-codec",
+              where=L.where(f), detail="; ".join(bad))
+    # the search for the declared encoding is bounded by the end of the
+    # declaration, or by the length of the document when it never ends
+    rx_ = repo.func("chameleon.utils.read_xml_encoding")
+    searches = [c for c in ast.walk(rx_.node) if isinstance(c, ast.Call)
+                and src(c.func).endswith(".search") and len(c.args) == 3]
+    oks = bool(searches)
+    for c in searches:
+        e = c.args[2]
+        alts = [e.body, e.orelse] if isinstance(e, ast.IfExp) else [e]
+        for a in alts:
+            if isinstance(a, ast.Call) and src(a.func) == "len" and \
+                    src(a.args[0]) != src(c.args[0]):
+                oks = False
+    rep.check(oks, "R17.1", rx_.qualname, "an unterminated declaration is "
+              "searched up to the end of the document",
+              construct="declaration-search-bound", where=L.where(rx_))
 
 
 def _table(repo, rep):
